@@ -83,7 +83,7 @@ func checkCmd(args []string) int {
 		c.Rule = "one evaluation = one generated abstract XML document, serialised with tape-drawn variation and pushed through ReadXml under: the reference delivery, 1-3 drawn delivery schedules, EVERY truncation offset, a read error at EVERY offset, and 8-23 sampled content corruptions (executions_of_code_under_test counts the ReadXml calls); distinct = distinct document bytes; non-trivial = document has >= 3 nodes and at least one truncation landed inside the document element"
 		c.Assumptions = []string{"generator bounds of DESIGN.md §5 (no DTD subset, no literal TAB/LF/CR in attribute values, no BOM)", "the predicate 'decoder detects an error' is computed by a bare encoding/xml token loop with the same CharsetReader", "faulted inputs that the decoder does not reject are only monitored for crashes"}
 		c.Components = map[string][]string{"real": realLib, "simulated": {"io.Reader behind ReadXml (delivery schedule, truncation, read errors, corruption)"}}
-		c.RequiredProbes = []string{"truncation-inside-multibyte-sequence", "corruption-detected-by-decoder", "corruption-still-decodable", "read-error", "truncation-after-document-element", "delivery:one-byte", "delivery:cut-inside-tokens", "zero-length-reads"}
+		c.RequiredProbes = []string{"truncation-inside-multibyte-sequence", "corruption-detected-by-decoder", "corruption-still-decodable", "read-error", "truncation-after-document-element", "delivery:one-byte", "delivery:cut-inside-tokens", "zero-length-reads", "declared-encoding-with-non-ascii-bytes:windows-1252", "declared-encoding-with-non-ascii-bytes:ISO-8859-1", "declared-encoding-with-non-ascii-bytes:KOI8-R", "declared-encoding-with-non-ascii-bytes:ISO-8859-2", "custom-entity-option", "interleaved-parsers"}
 		c.Phases = []simkit.Phase{{Label: "stream-xml", Bin: bin, Engine: "stream-xml", Runs: pick(8000, 400000), MaxSeconds: secs(60, 1500), DetSample: int(pick(24, 256)), Samples: 3}}
 	case "C16":
 		c.Level = "fault_enumeration"
